@@ -3,9 +3,12 @@
 
   C11 (`ConnGuard`):
     case <n> conn max=<m> http=<0|1> ws=<0|1> obs=<0|1> path=<server|tower|towerset>   -> case
-    cg harrive <c> | cg hdone <c> | cg habort <c>
-    cg wstart <c> <handshakeOk 0|1> | cg wdone <c> | cg wfail <c>
-    cg wclose <c> <close|reset|resetcall|proto|ping|stop>
+    cg harrive <c> <new|reuse> | cg hdone <c> | cg habort <c> <fin|rst>
+    cg wstart <c> <handshakeOk 0|1> | cg wdone <c> | cg wfail <c> <drop|reset>
+    cg wclose <c> <close|closecall|reset|resetcall|proto|ping|stop>
+  (the extra tokens say HOW the harness produces the event on the wire: fresh / kept-alive
+   TCP connection, FIN / RST, 101 dropped by a middleware / peer reset, … — the guard does not
+   distinguish them, which is part of what the correspondence checks)
     cg end
   answers: `<kind> a=<available_connections>`; with `obs=0` (the harness cannot read the guard:
   limit 0, no handler ever runs) the number is printed as `-`.
@@ -43,6 +46,7 @@ def cgOutRepr (obs : Bool) : ConnGuard.Out → String
 
 def parseCloseHow (s : String) : Option ConnGuard.CloseHow :=
   if s == "close" then some .peerClose
+  else if s == "closecall" then some .peerClose
   else if s == "reset" then some .peerReset
   else if s == "resetcall" then some .peerReset
   else if s == "proto" then some .serverClose
@@ -52,16 +56,16 @@ def parseCloseHow (s : String) : Option ConnGuard.CloseHow :=
 
 def parseCgOp (ws : List String) : Option ConnGuard.Op :=
   match ws with
-  | ["harrive", c] => c.toNat?.map .httpArrive
+  | ["harrive", c, mode] => if mode == "new" || mode == "reuse" then c.toNat?.map .httpArrive else none
   | ["hdone", c] => c.toNat?.map .httpDone
-  | ["habort", c] => c.toNat?.map .httpAbort
+  | ["habort", c, mode] => if mode == "fin" || mode == "rst" then c.toNat?.map .httpAbort else none
   | ["wstart", c, ok] =>
     match c.toNat?, ok with
     | some n, "1" => some (.wsUpgradeStart n true)
     | some n, "0" => some (.wsUpgradeStart n false)
     | _, _ => none
   | ["wdone", c] => c.toNat?.map .wsUpgradeDone
-  | ["wfail", c] => c.toNat?.map .wsUpgradeFail
+  | ["wfail", c, mode] => if mode == "drop" || mode == "reset" then c.toNat?.map .wsUpgradeFail else none
   | ["wclose", c, how] =>
     match c.toNat?, parseCloseHow how with
     | some n, some h => some (.wsClose n h)
